@@ -157,8 +157,23 @@ fn sgn_num(s: Sign) -> i32 {
 pub fn load_u(r: &mut Rec, k: usize, d: &[u64]) {
     let bytes = le_bytes(d);
     let extra = format!("\"bytes\":{}", bytes_json(&bytes));
+    let tight = std::env::var_os("HARNESS_GUARD").is_some();
+    let dirty = std::env::var_os("HARNESS_DIRTY").is_some();
     r.op("from_bytes_le", "U", &[], &[u(k)], &extra, |g| {
-        g.u[k] = BigUint::from_bytes_le(&bytes);
+        if dirty {
+            // same value, but built by shrinking a longer one in place: non-zero memory behind the digits
+            let mut junk = vec![0xA5u8; 32];
+            junk.extend_from_slice(&bytes);
+            let mut x = BigUint::from_bytes_le(&junk);
+            x >>= 256u32;
+            g.u[k] = x;
+        } else {
+            g.u[k] = BigUint::from_bytes_le(&bytes);
+        }
+        if tight {
+            // the digits exactly fill their allocation
+            g.u[k].verif_shrink();
+        }
         Ret::none()
     });
 }
